@@ -36,11 +36,26 @@ RULE = ("exhaustive small shapes (quick: rank 1-3 dims 0..4, rank 4 dims 0..3, r
         "gap-free matrix stacks of 1..4 blocks, and random larger shapes incl. reshapes with an inferred axis; "
         "a case is non-trivial when size > 1 and some dimension is not 1; distinct by op text")
 FLAVOUR = {"quick": "plain", "thorough": "asan"}
+# the quick tier is not an ASan build: glibc's allocator is asked to overwrite every released block (perturb) and to
+# hand released blocks back at once (no per-thread cache), so that a read of released memory yields the fill byte
+# instead of, by luck, the old values (ignored by the ASan flavour, which replaces the allocator)
+HARNESS_ENV = {"GLIBC_TUNABLES": "glibc.malloc.tcache_count=0:glibc.malloc.perturb=165"}
 EXHAUSTIVE = {"quick": False, "thorough": True}
 STORAGES = ["mem", "cmem", "map", "cmap"]
 SLICE_HOW = STORAGES + ["range"]
 GATHER_TYPES = ["i64", "i32", "i8", "u16", "f32", "f64"]
 TYPES = ["i8", "i16", "i32", "i64", "u8", "u16", "u32", "u64", "f32", "f64"]
+# assignment / write-through ops: how the view is obtained, where it is assigned to, element width of the owner
+AVIA = ["mem", "cmem", "map", "cmap"]
+ADST_CTRL = ["fresh", "big", "same", "omap", "ctor"]
+ATYPES = ["i64", "i32", "i16"]
+WKINDS = ["tensor", "vector", "array"]
+WSLICE_HOW = ["mem", "map", "range"]
+# integral with distinct scalar types: (input, output), the output at least as wide as the input
+INTEGRAL_PAIRS = [(i, o) for i in ["i8", "u8", "i16", "i32"] for o in ["i32", "i64", "f64"]] + [("f32", "f64")]
+# integers representable in the scalar type (f32 / f64: the contiguous range of exactly representable integers)
+SCALAR_RANGE = {"i8": (-2**7, 2**7 - 1), "u8": (0, 2**8 - 1), "i16": (-2**15, 2**15 - 1), "i32": (-2**31, 2**31 - 1),
+                "i64": (-2**63, 2**63 - 1), "f32": (-2**24, 2**24), "f64": (-2**53, 2**53)}
 
 
 def prod(xs):
@@ -141,6 +156,8 @@ def gen(rng, tier):
             ops.append(f"tensor integral {D} {lst([rng.range(-9, 9) for _ in range(n)])}")
             ops.append(f"tensor removeif {D} {lst([rng.below(2) for _ in range(dims[0])])}")
             ops.append(f"tensor convert {D}")
+            if rank <= 4:
+                more_ops(ops, rng, cyc, dims, tier, small=True)
     # random larger shapes (up to 1e5 elements)
     for _ in range(40 if tier == "quick" else 400):
         rank = rng.range(1, 5)
@@ -171,6 +188,8 @@ def gen(rng, tier):
                 ops.append(f"tensor segment {D} {b} {e - b} {cyc(STORAGES)}")
             ops.append(f"tensor integral {D} {lst([rng.range(-99, 99) for _ in range(prod(dims))])}")
             ops.append(f"tensor removeif {D} {lst([rng.below(2) for _ in range(dims[0])])}")
+            if rank <= 4:
+                more_ops(ops, rng, cyc, dims, tier, small=False)
     for _ in range(50 if tier == "quick" else 500):
         nb = rng.range(1, 4)
         blocks = [[rng.range(-50, 50) for _ in range(rng.range(0, 5))] for _ in range(nb)]
@@ -179,6 +198,115 @@ def gen(rng, tier):
     for _ in range(150 if tier == "quick" else 1500):
         ops.append(stackmat_op(rng))
     return ops
+
+
+def integral_values(rng, n, ity, oty):
+    """`n` integers of the input scalar type, chosen near the end of its range (one sign per tensor) so that the
+    prefix sums leave the INPUT type while the sum of all magnitudes still fits the OUTPUT type"""
+    ilo, ihi = SCALAR_RANGE[ity]
+    olo, ohi = SCALAR_RANGE[oty]
+    cap = min(ihi, ohi // max(n, 1))          # largest magnitude such that n values still fit the output
+    if ity == "i32" and oty != "i32" and rng.chance(0.5):
+        cap = 2**30 + 1000                    # near 2^30: two of them leave int32
+    neg = ilo < 0 and rng.chance(0.4)
+    span = max(1, min(cap // 4, 56 if ity in ("i8", "u8") else 3000))
+    vals = []
+    for _ in range(n):
+        v = cap - rng.below(span)
+        if ity == "f32":
+            v |= 1                            # odd: sums of two or more are not representable in binary32
+            v = min(v, 2**24 - 1)
+        if rng.chance(0.05):
+            v = rng.below(3)                  # a few small entries
+        vals.append(-v if neg else v)
+    return vals
+
+
+def gatherinto_ops(rng, dims, tier):
+    """gathers into a caller-provided output: the right shape (map overload), the same output twice, an owning
+    output holding other dimensions with the SAME number of elements (must be re-dimensioned), or any other size"""
+    rank = len(dims)
+    D = lst(dims)
+    cnt = rng.range(0, 5)
+    idx = [rng.below(dims[0]) for _ in range(cnt)]
+    R = [cnt] + dims[1:]
+    nout = prod(R)
+    inner = prod(dims[1:])
+    ops = [f"tensor gatherinto {D} {lst(idx)} {lst(R)} map"]
+    other = [rng.range(0, 4) for _ in range(rank)]
+    ops.append(f"tensor gatherinto {D} {lst(idx)} {lst(other)} {'twice' if rng.chance(0.5) else 'mem'}")
+    if rank >= 2:
+        # same element count, other dimensions; quick tier: only layouts whose first dimension is >= the number of
+        # gathered sub-tensors, so that even an implementation that forgets to re-dimension stays inside the buffer
+        # (the thorough tier runs under ASan and takes every permutation)
+        cands = []
+        if nout == 0:
+            cands += [[0] * rank, R[1:] + R[:1], [cnt] + [0] * (rank - 1)]
+        else:
+            cands += [[nout] + [1] * (rank - 1), [cnt * dims[1]] + [1] + dims[2:]]
+            if tier == "thorough":
+                cands += [R[1:] + R[:1], R[::-1]]
+        cands = [E for E in cands if E != R and prod(E) == nout]
+        if cands:
+            ops.append(f"tensor gatherinto {D} {lst(idx)} {lst(rng.choice(cands))} mem")
+    return ops
+
+
+def more_ops(ops, rng, cyc, dims, tier, small):
+    """assignments of views (aliasing the destination or not), writes through views, gathers into re-used outputs and
+    mixed-type integrals for one shape; `small`: a shape of the exhaustive part (everything enumerated), else a
+    random larger shape (sampled)"""
+    rank = len(dims)
+    D = lst(dims)
+    n = prod(dims)
+    if small:
+        bes = [(b, e) for b in range(dims[0] + 1) for e in range(b, dims[0] + 1)]
+    else:
+        bes = []
+        for _ in range(4):
+            b = rng.range(1, dims[0]) if dims[0] > 1 else rng.range(0, dims[0])
+            # half of them start before their own length (the region a shrinking allocation recycles first)
+            e = rng.range(min(dims[0], 2 * b), dims[0]) if rng.chance(0.5) else rng.range(b, dims[0])
+            bes.append((b, e))
+        bes += [(0, dims[0] // 2), (dims[0] // 2, dims[0])]
+    for b, e in bes:
+        ops.append(f"tensor aslice {D} {b} {e} {cyc(AVIA + ['range'])} self {cyc(ATYPES)}")
+        ops.append(f"tensor aslice {D} {b} {e} {cyc(AVIA + ['range'])} {cyc(ADST_CTRL)} {cyc(ATYPES)}")
+        if small or rng.chance(0.5):
+            ops.append(f"tensor wslice {D} {b} {e} {cyc(WSLICE_HOW)} {cyc(ATYPES)}")
+    # prefixes: all of them for small shapes of rank <= 3, sampled otherwise
+    pres = []
+    for k in range(rank):
+        if small:
+            for pre in itertools.product(*[range(d) for d in dims[:k]]):
+                if rank <= 3 or k == 0 or rng.chance(0.35):
+                    pres.append(list(pre))
+        elif n > 0:
+            pres.append([rng.below(d) for d in dims[:k]])
+    for pre in pres:
+        k = len(pre)
+        ops.append(f"tensor asub {D} {lst(pre)} {cyc(AVIA)} self {cyc(ATYPES)}")
+        if rng.chance(0.3):
+            ops.append(f"tensor asub {D} {lst(pre)} {cyc(AVIA)} {cyc(ADST_CTRL)} {cyc(ATYPES)}")
+        kinds = WKINDS + (["matrix"] * 2 if k + 2 == rank else [])
+        ops.append(f"tensor wsub {D} {lst(pre)} {cyc(kinds)} {cyc(ATYPES)}")
+    # same-rank reshapes of the tensor assigned to itself / to another tensor (same element count: no reallocation)
+    if small:
+        facts = list(factorisations(n, rank))
+    else:
+        facts = [rng.shuffle(dims), dims[::-1]]
+    for _ in range(2):
+        f = list(rng.choice(facts))
+        if rng.chance(0.5):
+            pos = rng.below(rank)
+            if prod(f[:pos] + f[pos + 1:]) != 0:
+                f[pos] = -1
+        ops.append(f"tensor areshape {D} {lst(f)} {cyc(AVIA)} {'self' if rng.chance(0.6) else cyc(ADST_CTRL)} {cyc(ATYPES)}")
+    if dims[0] > 0:
+        ops.extend(gatherinto_ops(rng, dims, tier))
+    if n <= 600:
+        ity, oty = cyc(INTEGRAL_PAIRS)
+        ops.append(f"tensor integralx {D} {ity} {oty} {lst(integral_values(rng, n, ity, oty))}")
 
 
 def compositions(rng, total, parts, allow_zero):
@@ -351,6 +479,75 @@ def oracle(op, res):
         rows = [i for i in range(dims[0]) if not mask[i]]
         want = [(i * inner + j) % 100 for i in rows for j in range(inner)]
         return None if kept == len(rows) and data == want else "remove_if kept the wrong sub-tensors"
+    if o in ("aslice", "areshape", "asub"):
+        # the assigned tensor = the view evaluated on the OLD contents (owner filled with offset + 1)
+        if o == "aslice":
+            b = t.int(); e = t.int()
+            wd = [e - b] + dims[1:]
+            want = [horner(dims, [b + q[0]] + list(q[1:])) + 1 for q in itertools.product(*[range(d) for d in wd])]
+        elif o == "asub":
+            pre = t.ints()
+            wd = dims[len(pre):]
+            want = [horner(dims, list(pre) + list(q)) + 1 for q in itertools.product(*[range(d) for d in wd])]
+        else:
+            sizes = t.ints()
+            wd = None
+            want = [k + 1 for k in range(n)]
+        via = t.s(); dst = t.s()
+        srcok = r.int(); sd, data = read_tensor(r)
+        if wd is None:
+            if len(sd) != len(sizes) or any(a != -1 and a != b for a, b in zip(sizes, sd)) or prod(sd) != n:
+                return f"assigned reshape {sizes} has dims {sd}"
+        elif sd != wd:
+            return f"assigned view has dims {sd}, expected {wd}"
+        if data != want:
+            bad = [k for k in range(min(len(data), len(want))) if data[k] != want[k]][:1]
+            return (f"{dst} = view ({via}): contents differ from the viewed elements"
+                    + (f", first at {bad[0]}: {data[bad[0]]} vs {want[bad[0]]}" if bad else f" ({len(data)} vs {len(want)} elements)"))
+        return None if srcok == 1 else "the assignment changed the source tensor"
+    if o in ("wsub", "wslice"):
+        # the owner (offset + 1) must hold -(j + 1) at the j-th element the view aliases and be unchanged elsewhere
+        if o == "wsub":
+            pre = t.ints(); k = len(pre)
+            inside = lambda idx: list(idx[:k]) == pre
+            local = lambda idx: horner(dims[k:], idx[k:])
+        else:
+            b = t.int(); e = t.int()
+            inside = lambda idx: b <= idx[0] < e
+            local = lambda idx: horner([e - b] + dims[1:], [idx[0] - b] + list(idx[1:]))
+        sd, data = read_tensor(r)
+        if sd != dims:
+            return f"writing through a view changed the dims to {sd}"
+        want = [(-(local(idx) + 1) if inside(idx) else horner(dims, idx) + 1)
+                for idx in itertools.product(*[range(d) for d in dims])]
+        return None if data == want else "writes through the view did not land on exactly the aliased elements"
+    if o == "gatherinto":
+        idx = t.ints(); sd, data = read_tensor(r)
+        if sd != [len(idx)] + dims[1:]:
+            return f"gather into a provided output: dims {sd}, expected {[len(idx)] + dims[1:]}"
+        want = [horner(dims, [idx[q[0]]] + list(q[1:])) % 100 for q in itertools.product(*[range(d) for d in sd])]
+        return None if data == want else "gathered elements differ from full indexing"
+    if o == "integralx":
+        ity = t.s(); oty = t.s(); src = t.ints(); sd, data = read_tensor(r)
+        if sd != dims:
+            return "integral dims"
+        ilo, ihi = SCALAR_RANGE[ity]
+        if any(not (ilo <= x <= ihi) for x in src):
+            return "generated value outside the input scalar type (generator bug)"
+        want = []
+        for idx in itertools.product(*[range(d) for d in dims]):
+            sm = 0
+            for q in itertools.product(*[range(i + 1) for i in idx]):
+                sm += src[horner(dims, q)]
+            want.append(sm)
+        olo, ohi = SCALAR_RANGE[oty]
+        if any(not (olo <= x <= ohi) for x in want):
+            return None  # the exact prefix sums do not fit the output type: nothing is promised
+        if data != want:
+            bad = [k for k in range(len(want)) if k >= len(data) or data[k] != want[k]][0]
+            return (f"summed-area table {ity}->{oty} differs from the exact prefix sums at offset {bad}: "
+                    f"{data[bad] if bad < len(data) else None} vs {want[bad]}")
+        return None
     if o == "convert":
         a = r.int(); s = r.int(); sd, data = read_tensor(r)
         ok = a == 1 and s == 1 and sd == dims and data == [k % 100 for k in range(n)]
